@@ -60,6 +60,12 @@ class Driver(object):
                 ev["id"] = len(self.listeners)
             return ev
 
+    @staticmethod
+    def _payload(n):
+        from clikit.api.event import ConfigEvent, Event, PreHandleEvent, PreResolveEvent
+
+        return (Event, lambda: ConfigEvent(None), lambda: PreResolveEvent(None, None), lambda: PreHandleEvent(None, None, None))[n % 4]()
+
     def _step(self, op):
         """performs op (a dict with op/ev/prio/stops/id), returns the full event record with observations"""
         from clikit.api.event import Event
@@ -105,7 +111,9 @@ class Driver(object):
                     stopped.stop_propagation()  # e.g. the event of an earlier, stopped dispatch used again
                     self._disp().dispatch(op["ev"], stopped)
                 elif op.get("own", True):
-                    self._disp().dispatch(op["ev"], Event())
+                    # the caller's payload: a plain Event or one of the library's own event classes (each is an Event)
+                    self.ndisp = getattr(self, "ndisp", 0) + 1
+                    self._disp().dispatch(op["ev"], self._payload(self.ndisp))
                 else:
                     self._disp().dispatch(op["ev"])
             except Runaway:
